@@ -267,6 +267,9 @@ impl Zone {
 
         if other.soa.is_some() {
             self.soa = other.soa;
+            // the other zone's records carry its SOA RR: it replaces ours,
+            // it does not join it
+            self.records.this.remove(&RecordType::SOA);
         }
 
         self.records.merge(other.records);
